@@ -189,7 +189,7 @@ func (w *world) doCrash(c *xchain, point string) {
 		return
 	}
 	if !same {
-		w.rec.Violate("C14", "crash_replay", point, "re-executing the interrupted block after a crash gave different results on %s: %s", c.Cfg.Name, detail)
+		w.rec.Violate("C14", "crash_replay", strings.SplitN(detail, ":", 2)[0], "re-executing the interrupted block after a crash (%s) gave different results on %s: %s", point, c.Cfg.Name, detail)
 	}
 }
 
